@@ -25,6 +25,11 @@ if common.released().get("excflow"):
     for t in [excflow.MODULE] + sorted(excflow.MODULES.values()):
         if t not in targets:
             targets.append(t)
+if common.released().get("monitor"):
+    import monitor
+    for t in getattr(monitor, "MODULES", None) or [monitor.MODULE]:
+        if t not in targets:
+            targets.append(t)
 rc, out = common.lake(["build"] + targets, timeout=7200)
 print(out[-3000:])
 print("setup: built %d lake targets, rc=%d" % (len(targets), rc))
